@@ -11,6 +11,9 @@ fn relators_by_start_gen(rels: &Vec<FreeWord>)
     let mut result = BTreeMap::new();
 
     for rel in rels {
+        if rel.len() == 0 {
+            continue;
+        }
         for w in relator_permutations(&rel) {
             result.entry(w[0])
                 .and_modify(|v: &mut Vec<_>| v.push(w.clone()))
